@@ -41,3 +41,82 @@ func VH_C12_glob_range() {
 		vassertK("C12.K1.match_in_range", vhInRange(g, s, desc), kf, "C12-glob-prefix-ff")
 	}
 }
+
+// C12-K1 (the matcher itself): Match agrees with the documented pattern language, written out as a plain
+// backtracking reference: '*' any sequence, '?' any one character, '[..]' / '[^..]' classes with ranges,
+// '\c' the character c, anything else itself; the whole name must be consumed. Patterns are sequences of
+// well-formed tokens (stars next to escapes, classes and literals in every order), names are symbolic.
+
+var vhGlobTokens = []string{"a", "b", "*", "?", "\\*", "\\?", "\\a", "[ab]", "[^a]", "[a-b]", "\\["}
+
+func vhRefClass(p string, c byte) (in bool, rest string) {
+	// p starts behind '['; well-formed by construction
+	neg := false
+	if p[0] == '^' {
+		neg = true
+		p = p[1:]
+	}
+	for n := 0; ; n++ {
+		if p[0] == ']' && n > 0 {
+			p = p[1:]
+			break
+		}
+		lo := p[0]
+		p = p[1:]
+		hi := lo
+		if p[0] == '-' {
+			hi = p[1]
+			p = p[2:]
+		}
+		if lo <= c && c <= hi {
+			in = true
+		}
+	}
+	return in != neg, p
+}
+
+func vhRefMatch(p, s string) bool {
+	if p == "" {
+		return s == ""
+	}
+	switch p[0] {
+	case '*':
+		for k := 0; k <= len(s); k++ {
+			if vhRefMatch(p[1:], s[k:]) {
+				return true
+			}
+		}
+		return false
+	case '?':
+		return len(s) > 0 && vhRefMatch(p[1:], s[1:])
+	case '[':
+		if len(s) == 0 {
+			return false
+		}
+		in, rest := vhRefClass(p[1:], s[0])
+		return in && vhRefMatch(rest, s[1:])
+	case '\\':
+		return len(s) > 0 && s[0] == p[1] && vhRefMatch(p[2:], s[1:])
+	}
+	return len(s) > 0 && s[0] == p[0] && vhRefMatch(p[1:], s[1:])
+}
+
+//verif:cfg quick.b_pattern=3_tokens_of_11_(literals,*,?,escaped_*_?_a_[,classes_[ab]_[^a]_[a-b]) thorough.b_pattern=4_tokens quick.b_name_bytes=0..3_symbolic_ASCII thorough.b_name_bytes=0..4 maxpaths=3000000
+func VH_C12_glob_match_spec() {
+	nt, smax := 3, 3
+	if vthorough() {
+		nt, smax = 4, 4
+	}
+	p := ""
+	for i := 0; i < nt; i++ {
+		p += vhGlobTokens[vchoose(len(vhGlobTokens))]
+	}
+	s := vnondetString(smax)
+	for i := 0; i < len(s); i++ {
+		vassume(s[i] < 0x80)
+	}
+	m, err := Match(p, s)
+	vobs("spec", p, m, err != nil)
+	vassert("C12.K1.well_formed_pattern_is_accepted", err == nil)
+	vassert("C12.K1.match_follows_the_documented_pattern_language", m == vhRefMatch(p, s))
+}
